@@ -8,6 +8,9 @@ WS4 = " \r\n\t"        # whitespace for co-author splitting ('~' is NOT whitespa
 WS5 = " ~\r\n\t"       # whitespace between the words of one name
 
 C12_TOKENS = ["Ab", "and", "AND", "aNd", "an", "d", " ", "\t", "\n", "~", "{", "}", "\\", "\\'", ","]
+# characters whose lower()/upper()/casefold() changes the length or is context dependent: any code that folds case and
+# then indexes back into the original text misplaces every later offset
+UNI_EDGE = ["\u0130smail", "Stra\u00dfe", "\u0149x", "\ufb03", "\u212aelvin", "\u0391\u03a3", "I\u0307x", "\u01c5x", "\u1e9e"]
 C13_TOKENS = ["Aa", "bb", "11", "{Cc}", "{dd}", "{\\'E}x", "{\\'e}x", "\\'E", "\\", ",", " ", "~", "{", "}"]
 
 
